@@ -240,6 +240,26 @@ def check_design(ctx, ej, tj, equipment, network):
                 ctx.violation('split-loss', f'{p.uid}: loss coefficient / type differs from the original fibre',
                               {'got': got.tolist(), 'expected': exp.tolist()})
                 break
+        # input attenuation: the user's value stays at the input of the first part only (the parts together have the
+        # original loss); a lumped loss that sits exactly between two parts may be carried as input attenuation of the
+        # second one; anything beyond that must be padding, i.e. bring that part exactly to the padding loss
+        att0 = e['params'].get('att_in') or 0.0
+        ordered = sorted(parts, key=lambda p: int(p.uid.rsplit('_(', 1)[1].split('/')[0]))
+        Lkm0 = lens[0] * 1e-3
+        moved = {}
+        for x in e['params'].get('lumped_losses') or []:
+            k = min(int(float(x['position']) // Lkm0 + 1e-9), n_parts - 1)
+            if float(x['position']) - k * Lkm0 < 1e-6:
+                moved[k] = moved.get(k, 0.0) + x['loss']
+        ctx.count('split_att_in_checks')
+        for k, p in enumerate(ordered):
+            extra = p.params.att_in - (att0 if k == 0 else 0.0) - moved.get(k, 0.0)
+            if extra < -1e-9 or (extra > 1e-9 and abs(p.loss - padding) > 1e-6):
+                ctx.violation('split-att-in', f'{e["uid"]}: part {k + 1}/{n_parts} has input attenuation '
+                              f'{p.params.att_in} dB; the original fibre had {att0} dB at its input (lumped losses on '
+                              f'part boundaries: {moved}); part loss {p.loss:.4f} dB, padding {padding} dB',
+                              mechanism='split-fibre-att-in-replicated' if k > 0 and abs(extra - att0) < 1e-9 else None)
+                break
         ll = e['params'].get('lumped_losses') or []
         if ll:
             # every lumped loss is found once, at its original place: in the part that contains it, or - when it sits
